@@ -2,8 +2,8 @@ import os, json, subprocess
 META = dict(
     engine='rt',
     technique='stateless model checking at task granularity: a harness-owned scheduler enumerates every task-level execution order of the real runtime running parsec_compose()d PTG taskpools (one stream), plus a deviation-bounded enumeration for long compositions and a free-running configuration box',
-    level_text='For every composition of n<=3 ptgpp-generated chain taskpools (every assignment of 4 (quick) / 5 (thorough) pool shapes, 3 driver modes: add-then-start, start-then-add, taskpool_wait on the compound) EVERY task-level execution order on one execution stream is executed on the real runtime; for n in {5,16,17,20} (across the realloc boundary of parsec_compose) every order with <= 1 (quick) / 2 (thorough) deviations from the canonical order; in each execution: every task ran once, the last exit stamp of pool i precedes the first entry stamp of pool i+1, context_wait returned after all of them, the compound completion callback ran exactly once after the last task, taskpool_wait(compound) returned after the last task. Threads {1,2,4} x schedulers {default, ap, ll} run the same oracle free-running.',
-    level_note='Task bodies and runtime actions are atomic at this level (instruction-level atomicity of the primitives is C07/C10/C30..); single process (hk-shm, MPI off); pools are W independent chains of L CTL-linked tasks, W<=3, L<=2 (W<=4, L<=3 free running). The free-running legs enumerate configurations, not schedules. A crash / failed assertion / hang of the runtime on a case is reported as a violation with that case.',
+    level_text='For every composition of n<=3 ptgpp-generated chain taskpools (every assignment of 6 pool shapes for n<=2 and 5 for n=3 (quick) / 8 (thorough), 3 driver modes: add-then-start, start-then-add, taskpool_wait on the compound) EVERY task-level execution order on one execution stream is executed on the real runtime; for n in {5,16,17,20} (across the realloc boundary of parsec_compose) every order with <= 1 (quick) / 2 (thorough) deviations from the canonical order; in each execution: every task ran once, the last exit stamp of pool i precedes the first entry stamp of pool i+1, context_wait returned after all of them, the compound completion callback ran exactly once after the last task, taskpool_wait(compound) returned after the last task. Threads {1,2,4} x schedulers {default, ap, ll} run the same oracle free-running.',
+    level_note='Task bodies and runtime actions are atomic at this level (instruction-level atomicity of the primitives is C07/C10/C30..); single process (hk-shm, MPI off); pools are W independent chains of L CTL-linked tasks, W<=4, L<=3. The free-running legs enumerate configurations, not schedules. A crash / failed assertion / hang of the runtime on a case is reported as a violation with that case.',
 )
 RULE = ("hsched DFS: one execution = one complete run (compose, add, start, wait) of the real runtime under one choice list of the "
         "harness scheduler (every select() with >1 pending ready tasks is a choice point, pending tasks in canonical order); states = nodes of the choice tree; "
@@ -27,7 +27,7 @@ def check(ctx):
     exe = _exe(ctx)
     q = ctx.tier == 'quick'
     args = ['--outdir', vlib.OUT, '--jobs', str(min(vlib.NJOBS, 12)), '--deadline', str(45 if q else 900)] + ([] if q else ['--thorough'])
-    ctx.run_engine(exe, args, label='compose', timeout=(120 if q else 1500))
+    ctx.run_engine(exe, args, label='compose', timeout=(600 if q else 2400))
     return ctx.finish(RULE, ASSUME)
 def replay(ctx, path, obj):
     return subprocess.call([_exe(ctx), '--replay', path])
